@@ -1160,7 +1160,7 @@ func c15DecodeTargetsFresh(c *Ctx, pg *ssa.Function, drivers []c15Driver) (bool,
 			}
 			switch u := r.(type) {
 			case *ssa.Alloc:
-				if perPage[f] {
+				if perPage[f] || c15IsPageFn(f) { // a local of this page's handling, or of another page function sharing the helper
 					continue
 				}
 				// an allocation in a caller: fresh only if made inside the loop around the page call
